@@ -2,7 +2,7 @@ import QtyModel.Ops
 import QtyModel.Rate
 import QtyModel.Generated.Algos
 /-
-  Tie between code and model for the ALGORITHMS (`Div<Self>` as the rate operators reach it, for every kind of quantity type).
+  Tie between code and model for the ALGORITHMS (which trait method `==` and `partial_cmp` of a quantity type WITH a reference unit forward to).
 
   `Generated/Algos.lean` is re-emitted from the Rust source on every run
   (tools/translate_algos.py).  Every theorem below states that the re-emitted definition IS the
@@ -16,15 +16,7 @@ set_option linter.unusedSectionVars false
 variable {A U V W : Type} [DecidableEq U] [DecidableEq V] [DecidableEq W]
 variable (R : Arith A) (T : QT A U)
 
-/-- `Div<Self>` as the rate operators reach it: the model's dispatch on the kind of type is the
-dispatch of the three templates -/
-theorem qdiv_eq (TB : RTable A) (a b : Q A Nat) :
-    Rate.qdiv R TB a b =
-      match TB.kind with
-      | .withRef => Kind.withRef.div R (TB.qt R) a b
-      | .noRef => Kind.noRef.div R (TB.qt R) a b
-      | .single => Kind.single.div R (TB.qt R) a b := by
-  unfold Rate.qdiv
-  cases TB.kind <;> rfl
+theorem withRef_eq (a b : Q A U) : Kind.withRef.eq R T a b = hrEq R T a b := rfl
+theorem withRef_partial_cmp (a b : Q A U) : Kind.withRef.partial_cmp R T a b = hrPcmp R T a b := rfl
 
 end Qty.AlgoTie
